@@ -58,7 +58,7 @@ def gen_program(rng, pid):
         if mode in ('start', 'both'):
             g['start'] = rng.choice([0, 1, 2])
         if mode in ('stop', 'both'):
-            g['stop'] = rng.choice([1, 2])      # arrays have >= 2 particles
+            g['stop'] = rng.choice([0, 1, 2])   # arrays have >= 2 particles
             g['start'] = min(g['start'], g['stop'])
         if mode in ('sprop', 'props'):
             g['sprop'] = True
